@@ -521,7 +521,9 @@ func TestEndToEndPropEmptyKey(t *testing.T) {
 		ts.Value = ""
 		tag := ts.render()
 		dc := kit.DrawDecoys(t) // neighbouring fields of other tag kinds must not matter
-		typ := reflect.StructOf(dc.Around(reflect.StructField{Name: "F", Type: reflect.TypeOf(map[string]any(nil)), Tag: quoteTag("prop", tag)}))
+		// (whatever the field's type: a pointer-typed point is as required as any other)
+		ftyp := rapid.SampledFrom([]reflect.Type{reflect.TypeOf(map[string]any(nil)), reflect.TypeOf(map[string]any(nil)), reflect.TypeOf((*int)(nil)), reflect.TypeOf((*string)(nil)), reflect.TypeOf(""), reflect.TypeOf(0), reflect.TypeOf([]int(nil))}).Draw(t, "fieldtype")
+		typ := reflect.StructOf(dc.Around(reflect.StructField{Name: "F", Type: ftyp, Tag: quoteTag("prop", tag)}))
 		obj := reflect.New(typ)
 		out := kit.RunApp(app.SetComponents(obj.Interface())) // no configuration at all: the root is empty
 		if out.OK() {
@@ -538,7 +540,7 @@ func TestEndToEndPropEmptyKey(t *testing.T) {
 		if !optional && out.Err == nil {
 			t.Fatalf("C19: prop:%q has no required=false and nothing is configured, yet start-up succeeded", tag)
 		}
-		kit.Rec.Case("prop-empty-key "+tag, true, "e2e-prop-empty-key")
+		kit.Rec.Case("prop-empty-key "+tag+" on "+ftyp.String(), true, "e2e-prop-empty-key")
 	})
 }
 
